@@ -73,7 +73,11 @@ func (k Keeper) UpgradeClient(
 	}
 
 	k.SetClientState(ctx, chainName, newClientState)
-	k.SetClientConsensusState(ctx, chainName, newClientState.GetLatestHeight(), newConsensusState)
+	// as in CreateClient, a TSS client has no consensus states: its latest height is always
+	// zero and a consensus state at height zero is rejected by the genesis validation
+	if newClientState.ClientType() != exported.TSS {
+		k.SetClientConsensusState(ctx, chainName, newClientState.GetLatestHeight(), newConsensusState)
+	}
 
 	k.Logger(ctx).Info(
 		"client state upgraded",
